@@ -1354,6 +1354,8 @@ impl BufferParser for Parser {
                         };
                         let num = num.min(buf.terminal_state.get_width());
                         (0..num).for_each(|_| caret.set_x_position(buf.terminal_state.next_tab_stop(caret.get_position().x)));
+                        // past the last tab stop next_tab_stop yields the screen width: stay on the last column
+                        buf.terminal_state.limit_caret_pos(buf, caret);
                         return Ok(CallbackAction::Update);
                     }
                     'Z' => {
